@@ -428,7 +428,7 @@ def suite_growth(tier, seed):
         counts = vlib.parse_counts(out)
         if rc != 0 or counts is None or 'No error has been found' not in out:
             raise InfraError('MODEL-ERROR: Growth model failed\n' + out[-2000:])
-        n = 300 if tier == 'quick' else 1500
+        n = 300 if tier == 'quick' else 600      # (every recorded call carries all elements: the validation cost is quadratic in n)
 
         def one(cfg):
             N = cfg.slots[0][1]['n']
